@@ -186,7 +186,7 @@ func main() {
 	templates := []string{"", "a", "a/{x}", "{x}/{y}", "{x}/{x}", "{x}/b/{y}/{z}", "{x}{y}/{z}/{w}"}
 	vals := map[string]interface{}{"x": 1, "y": "v", "z": "a b", "w": 3.5, "unused": "u"}
 	keys := []string{"x", "y", "z", "w", "unused"}
-	headers := []http.Header{nil, {"Authorization": {"tok"}}, {"Authorization": {"tok"}, "X-Two": {"1", "2"}}}
+	headers := []http.Header{nil, {"Authorization": {"tok"}}, {"Authorization": {"tok"}, "X-Two": {"1", "2"}}, {}} // (the last one: empty but not nil)
 	var samples lib.Samples
 	samples.N = 5
 	for _, ct := range ctors() {
